@@ -2061,6 +2061,16 @@ impl Transaction {
 
                 let existing_fragments = maybe_existing_fragments?;
 
+                // The fields whose values are replaced (negative ids are tombstones / not real fields)
+                let replaced_fields = new_datafiles
+                    .iter()
+                    .flat_map(|f| f.fields.iter())
+                    .filter_map(|field_id| u32::try_from(*field_id).ok())
+                    .collect::<HashSet<_>>()
+                    .into_iter()
+                    .collect::<Vec<_>>();
+                let mut modified_fragments = Vec::with_capacity(replacements.len());
+
                 // 2. check that the fragments being modified have isomorphic layouts along the columns being replaced
                 // 3. add modified fragments to final_fragments
                 for (frag_id, new_file) in old_fragment_ids.iter().zip(new_datafiles) {
@@ -2113,8 +2123,18 @@ impl Transaction {
                             location!(),
                         ));
                     }
+                    modified_fragments.push(new_frag.clone());
                     final_fragments.push(new_frag);
                 }
+
+                // The values of the replaced fields changed in these fragments, so any index
+                // on one of those fields no longer describes them: remove the fragments from
+                // the index's fragment bitmap (same as an in-place Update does).
+                Self::prune_updated_fields_from_indices(
+                    &mut final_indices,
+                    &modified_fragments,
+                    &replaced_fields,
+                );
 
                 let fragments_changed = old_fragment_ids
                     .iter()
